@@ -97,7 +97,7 @@ func TestC01(t *testing.T) {
 	}
 	cfgs := sim.AllConfigs()
 	rapid.Check(t, func(rt *rapid.T) {
-		p := drawProfile(rt, []gen.Profile{gen.REG, gen.MEM, gen.SHADOW, gen.WALK}, []int{40, 35, 15, 10})
+		p := drawProfile(rt, []gen.Profile{gen.REG, gen.MEM, gen.SHADOW, gen.WALK, gen.OWNER}, []int{38, 30, 15, 9, 8})
 		if rapid.IntRange(0, 9).Draw(rt, "long") == 0 {
 			p.MaxLen = maxLen
 		}
